@@ -599,7 +599,7 @@ int
 tun_setip(const char *ip, const char *other_ip, int netbits)
 {
 	char cmdline[512];
-	int netmask;
+	unsigned int netmask;
 	struct in_addr net;
 	int i;
 #ifndef LINUX
@@ -617,11 +617,17 @@ tun_setip(const char *ip, const char *other_ip, int netbits)
 #endif
 #endif
 
+	if (netbits < 0 || netbits > 32) {
+		fprintf(stderr, "Invalid netmask: /%d!\n", netbits);
+		return 1;
+	}
+
 	netmask = 0;
 	for (i = 0; i < netbits; i++) {
 		netmask = (netmask << 1) | 1;
 	}
-	netmask <<= (32 - netbits);
+	if (netbits > 0)
+		netmask <<= (32 - netbits);
 	net.s_addr = htonl(netmask);
 
 	if (inet_addr(ip) == INADDR_NONE) {
